@@ -9,7 +9,7 @@ import eqsig
 from eqsig import sdof, im
 
 from pbt import core, gen
-from pbt.core import clause
+from pbt.core import clause, enum_clause
 from pbt.ref import sdof as ref
 
 PROPERTY = "C03"
@@ -297,6 +297,58 @@ def object_api(case, ctx):
     tol = ref.tol_c01(dur, T, dt, relaxed=True) + ref.tol_c01(dur, T, dt / found, relaxed=True)
     ctx.check(bool(np.all(sd[s:] >= raw[0][s:] - tol * su - core.TINY)),
               "object S_d %r below the raw-sample S_d %r" % (sd.tolist(), raw[0].tolist()))
+
+
+# ---------------------------------------------------------------------------
+# a long record with a dense period grid and a high refinement ratio: n_periods x n_refined_steps ~ 1e8 (several GB inside the
+# library; thorough tier only)
+
+
+def _dense_long_enum(tier, shard, nshards):
+    items = [{"n": 30000, "np": 350, "ratio": 8, "seed": 11}, {"n": 52000, "np": 210, "ratio": 8, "seed": 12},
+             {"n": 100000, "np": 230, "ratio": 4, "seed": 13}]
+    for i, it in enumerate(items):
+        if i % nshards == shard:
+            yield it
+
+
+@enum_clause(CLAUSES, "dense-long", _dense_long_enum, thorough_only=True,
+             rule="fixed long records (30000-100000 samples at 100 Hz) with 210-350 log-spaced periods from 0.02 s and "
+                  "min_dt_ratio 4 / 8, so that the object must integrate at dt/4 or dt/8; eight of the periods are checked",
+             oracle="reference model: as object-api - an integer refinement k >= dt/h* exists whose S_d sandwich [no tail, held tail] "
+                    "contains the object's S_d (1e-9 of scale); S_v == w S_d",
+             exhaustive_note="the listed (length, periods, ratio) triples")
+def dense_long(case, ctx):
+    n, dt, xi, ratio = case["n"], 0.01, 0.05, case["ratio"]
+    t = np.arange(n) * dt
+    a = np.random.RandomState(case["seed"]).standard_normal(n) * (t / 20.0) * np.exp(1 - t / 20.0)
+    P = np.logspace(np.log10(0.02), np.log10(5.0), case["np"])
+    ctx.nt(True)
+    asig = ctx.lib(eqsig.AccSignal, a, dt)
+    ctx.lib(asig.gen_response_spectrum, response_times=P, xi=xi, min_dt_ratio=ratio)
+    sd = np.asarray(ctx.lib(lambda: asig.s_d))
+    sv = np.asarray(ctx.lib(lambda: asig.s_v))
+    ctx.shape(sd, (len(P),), "AccSignal.s_d")
+    ctx.finite(sd, "AccSignal.s_d")
+    hstar = max(P[0] / 20.0, dt / ratio)
+    kmin = int(math.ceil(dt / hstar * (1 - 1e-12)))
+    inds = np.array(sorted(set([0, 1, 5, len(P) // 6, len(P) // 3, len(P) // 2, len(P) - 20, len(P) - 1])))
+    T = P[inds]
+    ru, rv, _ = sdof.response_series(a, dt, T, xi)
+    su, _, _ = ref.lib_scales(a, dt, T, xi, ru, rv)
+    found = None
+    for k in range(kmin, 2 * kmin + 2):
+        lo = np.asarray(sdof.pseudo_response_spectra(_refined(a, k, False), dt / k, T, xi)[0])
+        hi = np.asarray(sdof.pseudo_response_spectra(_refined(a, k, True), dt / k, T, xi)[0])
+        slack = 1e-9 * su
+        if np.all(sd[inds] >= np.minimum(lo, hi) - slack) and np.all(sd[inds] <= np.maximum(lo, hi) + slack):
+            found = k
+            break
+    ctx.check(found is not None, "AccSignal S_d at periods %r = %r is not the spectrum of the record integrated at any step dt/k, "
+                                 "k in [%d, %d] (h*=%.4g, dt=%.4g, min_dt_ratio=%d, %d samples, %d periods)" % (
+                                     T.tolist(), sd[inds].tolist(), kmin, 2 * kmin + 1, hstar, dt, ratio, n, len(P)))
+    w = 2 * np.pi / P
+    ctx.close(sv, w * sd, 1e-12 * w * sd, "object S_v vs w*S_d")
 
 
 # ---------------------------------------------------------------------------
